@@ -342,7 +342,7 @@ class Check:
                     cur = line[6:].strip()
                     got[cur] = []
                 elif cur is not None and line.strip():
-                    got[cur].append(line.strip())
+                    got[cur].append(line.rstrip())
             for t in names:
                 lines = got.get(t)
                 if lines is None:
@@ -351,7 +351,10 @@ class Check:
                 if lines and lines[0].startswith("Closed under the global context"):
                     axs = []
                 else:
-                    axs = [l.split(":")[0].strip() for l in lines if re.match(r"^[A-Za-z_][\w.']*\s*:", l)]
+                    # every axiom starts at column 0 (`name : type`, or `name` alone with the type on the
+                    # indented lines that follow); the first line is the header `Axioms:`
+                    axs = [re.match(r"[A-Za-z_][\w.']*", l).group(0) for l in lines
+                           if re.match(r"[A-Za-z_][\w.']*", l) and l.strip() != "Axioms:"]
                 self.axioms[t] = axs
                 bad = [a for a in axs if a not in ALLOWED_AXIOMS and a.split(".")[-1] not in ALLOWED_AXIOMS]
                 self.oblige("theorem:" + t, not bad,
